@@ -89,3 +89,8 @@ LEVEL_NOTE["C19"] = "Calls issued while the shutdown is in progress may legitima
 LEVEL_TEXT["C05"] = ("Exploration under the race detector: each case runs a real multi-loop engine (-race build, default and poll_opt+gc_opt) with echo traffic while 4..12 goroutines issue generated mixes of every operation the property lists as concurrency-safe, on live and already closed connections and across Engine.Stop; "
                      "a data-race report whose two access stacks are both inside the framework is a violation (signature = the two innermost framework functions), and a per-loop record checks one goroutine per loop, distinct goroutines for distinct loops, no overlapping callbacks and no loop change.")
 LEVEL_NOTE["C05"] = "The detector sees only executed schedules; races involving harness frames are reported as infrastructure trouble, not as verdicts; -d=checkptr=0 for the poll_opt build (its unaligned epoll_event.data access trips checkptr, which is not a data race); Engine.Dup/DupListener are not in the property's list and are not raced against Stop."
+
+LEVEL_TEXT["C18"] = ("Fault enumeration: the framework's unix.* call sites on the I/O path are re-qualified at check time to wrappers that can make the k-th call at a chosen site on the victim's descriptor fail with a chosen errno (read, write, writev in conn.write/writev/open, eventloop.write and the residual flush of eventloop.close, accept4, epoll_ctl ADD/MOD/DEL, close, epoll_wait); "
+                     "the table site x errno x k x configuration is walked systematically (quick: first errno, k <= 2; thorough: all errnos, k <= 8) and sampled with pairs of faults, while 2..4 bystanders carry verified echo traffic; oracle: fatal faults close exactly the victim with one OnClose(non-nil), "
+                     "registration faults never open it, transient ones are invisible, the engine keeps serving, a stale AsyncWrite completes with net.ErrClosed, and a ledger of accept4/close shows every accepted descriptor closed exactly once with no I/O after the close.")
+LEVEL_NOTE["C18"] = "Faults replace the system call (except close); EAGAIN only in LT mode; UDP sites (recvfrom/sendto) are wrapped but not enumerated; whether the k-th call at a site happens depends on real scheduling, cases whose fault was not reached are counted as not delivered."
